@@ -360,3 +360,89 @@ Proof.
   rewrite (zip_zero fields vals Hlen). fold l.
   rewrite (gunmarshal_rows S m m' l Hok Hnd Hfresh Hp Hc l (fun r H => H)). reflexivity.
 Qed.
+
+(* ---------------- via Pack and Unpack into another message ---------------- *)
+(* Unmarshal reads a composite through its populated set and the states of the populated subfields only: equivalent
+   states (the relation the round-trip theorems of C01 establish) unmarshal to the same value *)
+Lemma uloop_ext ump1 ump2 subs set1 sts1 set2 sts2 : forall l,
+  (forall t, bmem t set2 = bmem t set1) ->
+  (forall r s' x, In r l -> blookup (rtag r) subs = Some s' -> bmem (rtag r) set1 = true -> blookup (rtag r) sts1 = Some x ->
+     exists y, blookup (rtag r) sts2 = Some y /\ ump2 s' y (rty r) (rval r) = ump1 s' x (rty r) (rval r)) ->
+  (forall r s', In r l -> blookup (rtag r) subs = Some s' -> bmem (rtag r) set1 = true -> blookup (rtag r) sts1 = None -> blookup (rtag r) sts2 = None) ->
+  uloop ump2 subs set2 sts2 l = uloop ump1 subs set1 sts1 l.
+Proof.
+  induction l as [|r rest IH]; intros Hb Hs Hn; [reflexivity|]. cbn [uloop].
+  rewrite (IH Hb (fun r0 s' x Hi => Hs r0 s' x (or_intror Hi)) (fun r0 s' Hi => Hn r0 s' (or_intror Hi))). f_equal.
+  destruct (rtag r) as [|c t0] eqn:Et; [reflexivity|]. rewrite <- Et in *.
+  destruct (blookup (rtag r) subs) as [s'|] eqn:Es; [|reflexivity]. rewrite Hb.
+  destruct (bmem (rtag r) set1) eqn:Em.
+  - destruct (blookup (rtag r) sts1) as [x|] eqn:Ex.
+    + destruct (Hs r s' x (or_introl eq_refl) Es Em Ex) as (y & Hy & He). rewrite Hy. exact He.
+    + rewrite (Hn r s' (or_introl eq_refl) Es Em Ex). reflexivity.
+  - destruct (blookup (rtag r) sts1), (blookup (rtag r) sts2); reflexivity.
+Qed.
+
+Theorem unmarshal_equiv : forall n s x y t cur, equiv s x y -> unmarshal_from n s y t cur = unmarshal_from n s x t cur.
+Proof.
+  induction n as [|n IH]; intros s x y t cur He; [reflexivity|]. destruct s as [p|pref len mode subs].
+  - cbn [equiv] in He. subst y. reflexivity.
+  - destruct x as [v|v|v|v|setx stsx]; try contradiction. destruct y as [v|v|v|v|sety stsy]; try contradiction. cbn [equiv] in He. destruct He as (Hset & Hsub).
+    destruct t as [| | | |t'| |]; try reflexivity. destruct t' as [| | | | | |fields]; try reflexivity.
+    rewrite !unmarshal_from_comp. f_equal. apply uloop_ext.
+    + intros t. symmetry. apply Hset.
+    + intros r s' x0 _ Hs' Hm Hx. pose proof (blookup_In _ _ _ Hs') as Hin. destruct (proj1 (equiv_subs equiv setx stsx stsy subs) Hsub (rtag r) s' Hin Hm) as (x1 & y1 & Hx1 & Hy1 & Heq).
+      exists y1. split; [exact Hy1|]. assert (x1 = x0) by congruence. subst x1. apply IH. exact Heq.
+    + intros r s' _ Hs' Hm Hx. pose proof (blookup_In _ _ _ Hs') as Hin. destruct (proj1 (equiv_subs equiv setx stsx stsy subs) Hsub (rtag r) s' Hin Hm) as (x1 & y1 & Hx1 & _). congruence.
+Qed.
+
+Lemma gunmarshal_congr S ma mb : forall (l : list row),
+  (forall r, In r l -> rid r <> 1) ->
+  (forall r, In r l -> 0 <= rid r -> zmem (rid r) (m_present mb) = zmem (rid r) (m_present ma)) ->
+  (forall r, In r l -> 0 <= rid r -> zmem (rid r) (m_present ma) = true ->
+     exists s x y, get_spec S (rid r) = Some s /\ get_state ma (rid r) = Some x /\ get_state mb (rid r) = Some y /\ equiv s x y) ->
+  m_unmarshal_fields S mb l = m_unmarshal_fields S ma l.
+Proof.
+  induction l as [|r rest IH]; intros H1 Hp Hs; [reflexivity|]. destruct r as ((d, ft), fv). cbn [m_unmarshal_fields].
+  rewrite (IH (fun r Hi => H1 r (or_intror Hi)) (fun r Hi => Hp r (or_intror Hi)) (fun r Hi => Hs r (or_intror Hi))).
+  change (it_id (index_tag_of d)) with (rid (d, ft, fv)).
+  pose proof (H1 _ (or_introl eq_refl)) as Hne1. pose proof (Hp _ (or_introl eq_refl)) as Hpr. pose proof (Hs _ (or_introl eq_refl)) as Hsr.
+  set (id := rid (d, ft, fv)) in *. destruct (id <? 0) eqn:E0; [reflexivity|]. specialize (Hpr ltac:(lia)). specialize (Hsr ltac:(lia)).
+  replace (id =? 1) with false by lia. cbn [andb]. f_equal.
+  destruct (zmem id (m_present ma)) eqn:Em.
+  - destruct (Hsr eq_refl) as (s & x & y & Hsp & Hx & Hy & Heq). unfold get_state, get_spec in *. rewrite Hpr.
+    destruct (id =? 0) eqn:Ez.
+    + inversion Hsp; subst s. inversion Hx; subst x. inversion Hy; subst y. apply unmarshal_equiv. exact Heq.
+    + rewrite Hsp, Hx, Hy. apply unmarshal_equiv. exact Heq.
+  - unfold get_state, get_spec in *. rewrite Hpr. destruct (id =? 0); [reflexivity|].
+    destruct (zlookup id (ms_fields S)); [|reflexivity]. destruct (zlookup id (m_fields ma)), (zlookup id (m_fields mb)); reflexivity.
+Qed.
+
+Theorem gstruct_wire_roundtrip S m fields vals : length vals = length fields ->
+  let l := zip_decls fields vals in
+  Forall (grow_ok S m) l -> NoDup (map rid (filter indexed l)) ->
+  (forall r, In r l -> 0 <= rid r -> zmem (rid r) (m_present m) = false) ->
+  msg_coherent S ->
+  exists m', m_marshal S m (TPtr (TStruct fields)) (VPtr (Some (VStruct vals))) = (m', Ok tt) /\
+    forall mp b, msg_in_dom S m' -> m_pack S m' = (mp, Ok b) -> forall m0 rest, msg_shaped S m0 ->
+      exists m2, m_unpack S m0 (b ++ rest) = (m2, UOk (zlen b)) /\
+        m_unmarshal S m2 (TPtr (TStruct fields)) (VPtr (Some (VStruct (map (fun df => g_zero (snd df)) fields)))) = Ok (VPtr (Some (VStruct (map (gexpected S) l)))).
+Proof.
+  intros Hlen l Hok Hnd Hfresh Hcoh.
+  destruct (gstruct_roundtrip S m fields vals Hlen Hok Hnd Hfresh) as (m' & Hm & Hun). exists m'. split; [exact Hm|].
+  intros mp b Hdom Hp m0 rest Hsh. destruct (message_roundtrip S m' mp b Hcoh Hdom Hp m0 rest Hsh) as (m2 & Hu & Hmti & _ & Hpres & _ & Hfl).
+  exists m2. split; [exact Hu|]. cbn [m_unmarshal] in *. rewrite (zip_zero fields vals Hlen) in *. fold l in Hun |- *.
+  pose proof (m_pack_pure S m') as Hpure. rewrite Hp in Hpure. cbn [fst] in Hpure. cbv zeta in Hpure. destruct Hpure as (Pm & Pf & Pp).
+  rewrite <- Hun. f_equal.
+  assert (Hrid1 : forall r, In r (map zero_row l) -> rid r <> 1).
+  { intros r Hr. apply in_map_iff in Hr. destruct Hr as (r0 & <- & Hr0). rewrite Forall_forall in Hok. destruct (Hok r0 Hr0) as [Hneg|(_ & H1 & _)]; unfold rid, zero_row in *; cbn [fst] in *; lia. }
+  rewrite (gunmarshal_congr S m' m2 (map zero_row l)); [reflexivity|exact Hrid1| |].
+  - intros r Hr H0. rewrite Hpres by (apply Hrid1; exact Hr). apply Pp. apply Hrid1. exact Hr.
+  - intros r Hr H0 Hm'. pose proof (Hrid1 r Hr) as H1. apply in_map_iff in Hr. destruct Hr as (r0 & <- & Hr0). rewrite Forall_forall in Hok.
+    assert (Hid : rid (zero_row r0) = rid r0) by reflexivity. rewrite Hid in *.
+    destruct (Hok r0 Hr0) as [Hneg|(_ & _ & s & Hsp & _ & _)]; [lia|]. unfold get_state, get_spec in *.
+    destruct (rid r0 =? 0) eqn:Ez.
+    + inversion Hsp; subst s. exists (FPrim (ms_mti S)), (m_mti m'), (m_mti m2). repeat split. cbn [equiv]. rewrite Hmti, Pm. reflexivity.
+    + assert (Hmp : zmem (rid r0) (m_present mp) = true) by (rewrite Pp by exact H1; exact Hm').
+      destruct (Hfl (rid r0) ltac:(lia) Hmp) as (s2 & x & y & Hs & Hx & Hy & Heq & _). rewrite Hsp in Hs. inversion Hs; subst s2.
+      exists s, x, y. split; [exact Hsp|]. split; [rewrite <- Pf; exact Hx|]. split; [exact Hy|exact Heq].
+Qed.
